@@ -153,7 +153,21 @@ def gen_program(exact, length):
                 d = {}
                 for _ in range(rng.randint(1, 5)):
                     d[pool.atom()] = pool.count(exact)
+                if rng.random() < 0.35:
+                    # relatives of one element side by side: the element, two of its charge states, an isotope and its ion
+                    el = rng.choice([e for e in pool.elements if len(e.ions) >= 2 and e.isotopes])
+                    iso = el[rng.choice(el.isotopes)]
+                    for a in rng.sample([el, el.ion[el.ions[0]], el.ion[el.ions[-1]], iso, iso.ion[el.ions[0]]], rng.randint(2, 4)):
+                        d[a] = pool.count(exact)
                 f = formula(dict(d), density=dens, name=name)
+                want = {}
+                for a, c in d.items():
+                    want[atom_key(a)] = want.get(atom_key(a), 0) + c
+                got = ref_counts(f.structure, 1, {})
+                if set(k for k, c in want.items() if c) != set(k for k, c in got.items() if c) or \
+                        any(not rel(got.get(k, 0), c, 1e-12) for k, c in want.items()):
+                    fail("C02:constructor-loses-atoms", "formula(%r) has atoms %r" % (d, {repr(a): c for a, c in f.atoms.items()}),
+                         program="formula(%r)" % d)
                 s = "(SDict [%s])" % "; ".join("(%s, %s)" % (atom_term(a), q(c)) for a, c in d.items())
                 txt.append("v%d = formula(%r, density=%r, name=%r)" % (v, d, dens, name))
             elif sk == "nested":
